@@ -225,176 +225,195 @@ def _rooted_param(fi: FuncInfo, e: ast.AST, params: set):
 
 # ---------------------------------------------------------------------------------------------
 
-def _strict_less(test: ast.AST, ch: str, inc_names: set) -> bool:
-    """test contains the conjunct  ch.cost < inc.cost  (or mirrored  inc.cost > ch.cost)."""
-    if isinstance(test, ast.BoolOp) and isinstance(test.op, ast.And):
-        return any(_strict_less(v, ch, inc_names) for v in test.values)
-    if isinstance(test, ast.Compare) and len(test.ops) == 1:
-        l, r, op = test.left, test.comparators[0], test.ops[0]
-        def is_cost(e, names):
-            return isinstance(e, ast.Attribute) and e.attr == "cost" and isinstance(e.value, ast.Name) and e.value.id in names
-        if isinstance(op, ast.Lt) and is_cost(l, {ch}) and is_cost(r, inc_names):
-            return True
-        if isinstance(op, ast.Gt) and is_cost(l, inc_names) and is_cost(r, {ch}):
-            return True
-    return False
-
-
-def _negated_nonstrict(test: ast.AST, ch: str, inc_names: set) -> bool:
-    """test is  inc.cost <= ch.cost  (or ch.cost >= inc.cost): its *else* branch is the strict case."""
-    if isinstance(test, ast.Compare) and len(test.ops) == 1:
-        l, r, op = test.left, test.comparators[0], test.ops[0]
-        def is_cost(e, names):
-            return isinstance(e, ast.Attribute) and e.attr == "cost" and isinstance(e.value, ast.Name) and e.value.id in names
-        if isinstance(op, ast.LtE) and is_cost(l, inc_names) and is_cost(r, {ch}):
-            return True
-        if isinstance(op, ast.GtE) and is_cost(l, {ch}) and is_cost(r, inc_names):
-            return True
-    return False
-
-
 def check_greedy_agent(f: FuncInfo) -> list:
+    """Every return of the challenger happens on a path whose condition implies the strict `challenger.cost < incumbent.cost`
+    (propositional implication over canonical atoms; copies of the incumbent count as the incumbent); every other return is the
+    incumbent or a copy of it."""
+    from ..sem import implies, path_conditions
     out = []
     if len(f.params) < 3:
         return [("greedy-shape", f.node, "signature is not (self, incumbent, challenger)")]
     inc, ch = f.params[1], f.params[2]
     inc_names = {inc}
-    # local copies of the incumbent
-    for n in own_nodes(f):
-        if isinstance(n, ast.Assign) and len(n.targets) == 1 and isinstance(n.targets[0], ast.Name):
-            v = n.value
-            if isinstance(v, ast.Call) and isinstance(v.func, ast.Attribute) and v.func.attr == "model_copy" \
-                    and isinstance(v.func.value, ast.Name) and v.func.value.id in inc_names:
-                inc_names.add(n.targets[0].id)
-            elif isinstance(v, ast.Name) and v.id in inc_names:
-                inc_names.add(n.targets[0].id)
-            elif n.targets[0].id in (inc, ch):
-                out.append(("greedy-shape", n, f"parameter `{n.targets[0].id}` is rebound"))
+    env = {}
+    changed = True
+    while changed:
+        changed = False
+        for n in own_nodes(f):
+            tgt = val = None
+            if isinstance(n, ast.Assign) and len(n.targets) == 1 and isinstance(n.targets[0], ast.Name):
+                tgt, val = n.targets[0].id, n.value
+            elif isinstance(n, ast.AnnAssign) and isinstance(n.target, ast.Name) and n.value is not None:
+                tgt, val = n.target.id, n.value
+            if tgt is None:
+                continue
+            if tgt in (inc, ch):
+                out.append(("greedy-shape", n, f"parameter `{tgt}` is rebound"))
+                return out
+            is_copy = isinstance(val, ast.Call) and isinstance(val.func, ast.Attribute) and val.func.attr == "model_copy" \
+                and isinstance(val.func.value, ast.Name) and val.func.value.id in inc_names
+            if (is_copy or (isinstance(val, ast.Name) and val.id in inc_names)) and tgt not in inc_names:
+                inc_names.add(tgt)
+                changed = True
+            elif tgt not in inc_names and tgt not in env:
+                env[tgt] = val          # e.g. `challenger_wins = new.cost < old.cost`
+                changed = True
+    # aliases of the incumbent have the incumbent's cost
+    for a in inc_names - {inc}:
+        env[a] = ast.Name(id=inc, ctx=ast.Load())
+    goal = ast.parse(f"{ch}.cost < {inc}.cost", mode="eval").body
 
     def classify(e):
-        """'ch' | 'inc' | 'other'"""
         if isinstance(e, ast.Name):
-            return "ch" if e.id == ch else "inc" if e.id in inc_names else "other"
-        if isinstance(e, ast.Call) and isinstance(e.func, ast.Attribute) and e.func.attr == "model_copy" \
-                and isinstance(e.func.value, ast.Name):
-            who = "ch" if e.func.value.id == ch else "inc" if e.func.value.id in inc_names else "other"
-            return who
+            if e.id == ch:
+                return "ch"
+            if e.id in inc_names:
+                return "inc"
+            if e.id in env and isinstance(env[e.id], ast.AST):
+                return classify(env[e.id])
+            return "other"
+        if isinstance(e, ast.Call) and isinstance(e.func, ast.Attribute) and e.func.attr == "model_copy" and isinstance(e.func.value, ast.Name):
+            return "ch" if e.func.value.id == ch else "inc" if e.func.value.id in inc_names else "other"
         return "other"
 
-    def visit(e, conds, node):
-        """conds: list of (test, polarity)"""
+    def leaves(e, extra):
+        """(leaf expression, extra conditions) through conditional expressions"""
         if isinstance(e, ast.IfExp):
-            visit(e.body, conds + [(e.test, True)], node)
-            visit(e.orelse, conds + [(e.test, False)], node)
-            return
-        k = classify(e)
-        if k == "ch":
-            ok = any((pol and _strict_less(t, ch, inc_names)) or ((not pol) and _negated_nonstrict(t, ch, inc_names))
-                     for (t, pol) in conds)
-            if not ok:
-                out.append(("greedy-strict", node,
-                            f"returns the challenger `{ch}` on a path whose condition does not contain the strict "
-                            f"`{ch}.cost < {inc}.cost` (conditions: {[('' if p else 'not ') + norm(t, 50) for t, p in conds] or 'none'})"))
-        elif k == "other":
-            out.append(("greedy-shape", node, f"returns `{norm(e, 60)}`, neither the incumbent (or a copy) nor the challenger"))
-
-    def walk(stmts, conds):
-        for st in stmts:
-            if isinstance(st, ast.Return):
-                if st.value is None:
-                    out.append(("greedy-shape", st, "returns None"))
-                else:
-                    visit(st.value, conds, st)
-            elif isinstance(st, ast.If):
-                walk(st.body, conds + [(st.test, True)])
-                walk(st.orelse, conds + [(st.test, False)])
-                # statements after an if whose body always returns are under the negated test
-                if st.body and isinstance(st.body[-1], ast.Return):
-                    conds = conds + [(st.test, False)]
-            elif isinstance(st, (ast.For, ast.While, ast.Try, ast.With)):
-                out.append(("greedy-shape", st, f"control flow `{type(st).__name__}` not understood"))
-    walk(f.node.body, [])
-    if not returns_of(f.node):
-        out.append(("greedy-shape", f.node, "no return"))
+            yield from leaves(e.body, extra + [(e.test, True)])
+            yield from leaves(e.orelse, extra + [(e.test, False)])
+        elif isinstance(e, ast.Name) and e.id in env and isinstance(env[e.id], ast.IfExp):
+            yield from leaves(env[e.id], extra)
+        else:
+            yield e, extra
+    rets = returns_of(f.node)
+    if not rets:
+        return [("greedy-shape", f.node, "no return")]
+    for r in rets:
+        if r.value is None:
+            out.append(("greedy-shape", r, "returns None"))
+            continue
+        base = path_conditions(f.node, r)
+        for leaf, extra in leaves(r.value, []):
+            k = classify(leaf)
+            if k == "other":
+                out.append(("greedy-shape", r, f"returns `{norm(leaf, 60)}`, neither the incumbent (or a copy) nor the challenger"))
+            elif k == "ch":
+                try:
+                    ok = implies(base + extra, goal, env)
+                except Exception:
+                    ok = False
+                if not ok:
+                    shown = [("" if p else "not ") + norm(t, 50) for t, p in base + extra] or ["unconditionally"]
+                    out.append(("greedy-strict", r,
+                                f"returns the challenger `{ch}` on a path whose condition does not imply the strict "
+                                f"`{ch}.cost < {inc}.cost` (path: {shown})"))
+    for n in own_nodes(f):
+        if isinstance(n, (ast.For, ast.While, ast.Try)):
+            out.append(("greedy-shape", n, f"control flow `{type(n).__name__}` not understood"))
     return out
 
 
 def check_population_helpers(prog: Program, size_only: bool = False) -> list:
     """size_only (C10): only what determines the *number* of agents is required (extra ranking arguments are tolerated)."""
+    from ..flow import origin, reaching_def
+    from ..sem import Sem
+    sem = Sem(prog, prog.cls(ABSTRACT))
     out = []
     g = prog.func(f"{ABSTRACT}._greedy_select_population")
     newp = g.params[1] if len(g.params) > 1 else None
-    body = [st for st in g.node.body if not (isinstance(st, ast.Expr) and isinstance(st.value, ast.Constant))]
-    # the two sorts come first
-    def is_sort_assign(st, target, arg):
-        return (isinstance(st, ast.Assign) and len(st.targets) == 1 and dotted(st.targets[0]) == target
-                and isinstance(st.value, ast.Call) and dotted(st.value.func) == "sort_by_cost" and len(st.value.args) == 1
-                and dotted(st.value.args[0]) == arg and not st.value.keywords)
-    sorts = {"self._population": None, newp: None}
-    for i, st in enumerate(body):
-        for t in list(sorts):
-            if is_sort_assign(st, t, t):
-                sorts[t] = i
-    if sorts["self._population"] is None:
-        out.append(("R4-greedy-population-sorted", g.node, "_greedy_select_population does not sort the current population ascending before pairing"))
-    if sorts[newp] is None:
-        out.append(("R4-greedy-population-sorted", g.node, "_greedy_select_population does not sort the new population ascending before pairing"))
-    first_pair = None
-    n_pair = 0
+    SBC = f"{PKG}.helpers.sort_by_cost"
+    SAT = f"{PKG}.helpers.sort_and_trim"
+
+    def sorted_of(e, what) -> bool:
+        """e is sort_by_cost(<what>) with the default direction (through local names)"""
+        e = origin(g.node, e) if isinstance(e, ast.Name) else e
+        if sem.is_call_to(g, e, SBC):
+            a = sem.args(g, e)
+            src = a.get("population")
+            return src is not None and dotted(src) == what and ("task_type" not in a or size_only)
+        if isinstance(e, ast.Call) and isinstance(e.func, ast.Name) and e.func.id == "sorted" and e.args and dotted(e.args[0]) == what:
+            return True
+        return False
+    pairs = []
     for n in own_nodes(g):
         if isinstance(n, ast.ListComp) and len(n.generators) == 1:
             gen = n.generators[0]
             it = gen.iter
             e = n.elt
-            is_enum = isinstance(it, ast.Call) and isinstance(it.func, ast.Name) and it.func.id == "enumerate" \
-                and len(it.args) == 1 and dotted(it.args[0]) == "self._population" and isinstance(gen.target, ast.Tuple) \
-                and len(gen.target.elts) == 2
-            if not is_enum:
-                continue
-            idx, ag = gen.target.elts[0].id, gen.target.elts[1].id
             args = None
             if isinstance(e, ast.Call) and dotted(e.func) == "self._greedy_select_agent":
-                args = e.args
+                args = list(e.args) + [k.value for k in e.keywords]
             elif isinstance(e, ast.Call) and isinstance(e.func, ast.Attribute) and e.func.attr == "submit" and e.args \
                     and dotted(e.args[0]) == "self._greedy_select_agent":
-                args = e.args[1:]
+                args = list(e.args[1:]) + [k.value for k in e.keywords]
             if args is None:
                 continue
-            n_pair += 1
-            ok = (len(args) == 2 and isinstance(args[0], ast.Name) and args[0].id == ag and isinstance(args[1], ast.Subscript)
-                  and dotted(args[1].value) == newp and isinstance(args[1].slice, ast.Name) and args[1].slice.id == idx
-                  and not gen.ifs)
-            if not ok:
-                out.append(("R4-greedy-population-pairing", n, f"`{norm(n, 90)}` does not pair incumbent k with challenger k"))
-            st = n
-            while not isinstance(st, ast.stmt) or parent(st) is not g.node and not isinstance(parent(st), (ast.If, ast.With)):
-                st = parent(st)
-            first_pair = n if first_pair is None else first_pair
-    if n_pair != 2:
-        out.append(("R4-greedy-population-pairing", g.node, f"{n_pair} pairing comprehensions found, expected serial + pooled"))
-    # the sorts must precede the pairings (top-level order)
-    if first_pair is not None and None not in sorts.values():
-        first_line = min(n.lineno for n in own_nodes(g) if isinstance(n, ast.ListComp))
-        for t, i in sorts.items():
-            if body[i].lineno > first_line:
-                out.append(("R4-greedy-population-sorted", body[i], "sorting happens after the pairing"))
+            pairs.append((n, gen, args))
+    if len(pairs) != 2:
+        out.append(("R4-greedy-population-pairing", g.node, f"{len(pairs)} pairing comprehensions found, expected serial + pooled"))
+    for (n, gen, args) in pairs:
+        it = gen.iter
+        ok = False
+        inc_src = ch_src = None
+        if isinstance(it, ast.Call) and isinstance(it.func, ast.Name) and it.func.id == "enumerate" and len(it.args) == 1 \
+                and isinstance(gen.target, ast.Tuple) and len(gen.target.elts) == 2 and not gen.ifs and len(args) == 2:
+            idx, ag = gen.target.elts[0].id, gen.target.elts[1].id
+            inc_src = it.args[0]
+            if isinstance(args[0], ast.Name) and args[0].id == ag and isinstance(args[1], ast.Subscript) \
+                    and isinstance(args[1].slice, ast.Name) and args[1].slice.id == idx:
+                ch_src = args[1].value
+                ok = True
+        elif isinstance(it, ast.Call) and isinstance(it.func, ast.Name) and it.func.id == "zip" and len(it.args) == 2 \
+                and isinstance(gen.target, ast.Tuple) and len(gen.target.elts) == 2 and not gen.ifs and len(args) == 2:
+            a, b = gen.target.elts[0].id, gen.target.elts[1].id
+            if isinstance(args[0], ast.Name) and args[0].id == a and isinstance(args[1], ast.Name) and args[1].id == b:
+                inc_src, ch_src = it.args
+                ok = True
+        if not ok:
+            out.append(("R4-greedy-population-pairing", n, f"`{norm(n, 90)}` does not pair incumbent k with challenger k"))
+            continue
+        # incumbents: the live population, sorted ascending at that point; challengers: the new population sorted ascending
+        def reaches_sorted(src, what):
+            if dotted(src) == "self._population" and what == "self._population":
+                # the field must have been assigned sort_by_cost(self._population) earlier in the function
+                for m in own_nodes(g):
+                    if isinstance(m, ast.Assign) and len(m.targets) == 1 and dotted(m.targets[0]) == "self._population" \
+                            and m.lineno < n.lineno and sorted_of(m.value, "self._population"):
+                        return True
+                return False
+            if isinstance(src, ast.Name):
+                rd = reaching_def(g.node, src, src.id)
+                if rd is not None and rd[2] == "assign":
+                    return sorted_of(rd[1], what) or (isinstance(rd[1], ast.Name) and reaches_sorted(rd[1], what))
+            return sorted_of(src, what)
+        if not size_only:
+            if not reaches_sorted(inc_src, "self._population"):
+                out.append(("R4-greedy-population-sorted", n, "the incumbents are not the current population sorted ascending by cost"))
+            if not reaches_sorted(ch_src, newp):
+                out.append(("R4-greedy-population-sorted", n, "the challengers are not the new population sorted ascending by cost"))
+        if dotted(inc_src) != "self._population" and not (isinstance(inc_src, ast.Name) and reaches_sorted(inc_src, "self._population")):
+            out.append(("R4-greedy-population-pairing", n, "the pairing does not range over every member of the current population"))
     # R5 trims
     e = prog.func(f"{ABSTRACT}._extend_and_trim_population")
     ep = e.params[1]
     ext = [n for n in own_nodes(e) if isinstance(n, ast.Call) and dotted(n.func) == "self._population.extend"
            and len(n.args) == 1 and dotted(n.args[0]) == ep]
-    trim = [n for n in own_nodes(e) if isinstance(n, ast.Assign) and dotted(n.targets[0]) == "self._population"
-            and isinstance(n.value, ast.Call) and dotted(n.value.func) == "sort_and_trim"
-            and (len(n.value.args) == 2 and not n.value.keywords or (size_only and len(n.value.args) >= 2))
-            and dotted(n.value.args[0]) == "self._population" and dotted(n.value.args[1]) == "self._config.population_size"]
+    ext += [n for n in own_nodes(e) if isinstance(n, ast.AugAssign) and dotted(n.target) == "self._population" and dotted(n.value) == ep]
+
+    def trim_of(fi, what):
+        hits = []
+        for n in own_nodes(fi):
+            if isinstance(n, ast.Assign) and dotted(n.targets[0]) == "self._population" and sem.is_call_to(fi, n.value, SAT):
+                a = sem.args(fi, n.value)
+                if dotted(a.get("population")) == what and dotted(a.get("population_size")) == "self._config.population_size" \
+                        and (size_only or set(k for k in a if not k.startswith("#")) <= {"population", "population_size"}):
+                    hits.append(n)
+        return hits
+    trim = trim_of(e, "self._population")
     if len(ext) != 1 or len(trim) != 1 or ext[0].lineno > trim[0].lineno:
         out.append(("R5-extend-and-trim", e.node, "_extend_and_trim_population is not extend(new) followed by sort_and_trim(population, population_size)"))
     r = prog.func(f"{ABSTRACT}._replace_and_trim_population")
-    rp = r.params[1]
-    trim = [n for n in own_nodes(r) if isinstance(n, ast.Assign) and dotted(n.targets[0]) == "self._population"
-            and isinstance(n.value, ast.Call) and dotted(n.value.func) == "sort_and_trim"
-            and (len(n.value.args) == 2 and not n.value.keywords or (size_only and len(n.value.args) >= 2))
-            and dotted(n.value.args[0]) == rp and dotted(n.value.args[1]) == "self._config.population_size"]
+    trim = trim_of(r, r.params[1])
     if len(trim) != 1:
         out.append(("R5-replace-and-trim", r.node, "_replace_and_trim_population is not sort_and_trim(new, population_size)"))
     return out
